@@ -25,7 +25,7 @@ def lfsr(n: int) -> list[int]:
     return out
 
 
-_LFSR = lfsr(300)
+_LFSR = lfsr(1100)
 
 
 def randomize(pl) -> bytes:
